@@ -177,6 +177,7 @@ int main()
         std::string status = "ok", extra;
         try {
             if (op == "reset") {
+                g_archive.clear();
                 freshContext();
             } else if (op == "script" && t.size() >= 3 && (t.size() == 3 || t[3] == "##")) {
                 const std::string& src = (g_sources[t[1]] = unhex(t[2]));
@@ -195,6 +196,9 @@ int main()
                 if (t[2] == "-") g_ctx->GetDirector().ExecuteThread(s, *g_lastEvent);
                 else g_ctx->GetDirector().ExecuteThread(s, *g_lastEvent, t[2].c_str());
                 extra = " ret=" + (g_lastEvent->NumArgs() > nargsOfLastCall ? lastResult() : std::string("none"));
+            } else if (op == "callv" && t.size() == 3) {
+                const ProgramScript* s = g_ctx->GetDirector().GetProgramScript(t[1].c_str());
+                g_ctx->GetDirector().ExecuteThread(s, t[2].c_str());
             } else if (op == "thread-result") {
                 extra = " ret=" + (g_lastEvent && g_lastEvent->NumArgs() > nargsOfLastCall ? lastResult() : std::string("none"));
             } else if (op == "advance" && t.size() == 2) {
@@ -275,8 +279,8 @@ int main()
                 version_info_t info; info.header = "VRIF"; info.version = 1; info.archiveName = "verif";
                 { Archiver arc = Archiver::CreateWrite(os, info); g_ctx->GetDirector().Archive(arc); }
                 g_archive = os.str();
-                extra = " bytes=" + std::to_string(g_archive.size());
             } else if (op == "load") {
+                if (g_archive.empty()) { say("bad-op"); continue; }
                 g_ctx->GetDirector().Reset();
                 imemstream is(g_archive.data(), g_archive.size());
                 version_info_t info; info.header = "VRIF"; info.version = 1; info.archiveName = "verif";
